@@ -17,6 +17,7 @@ RULE = (
     'ReducedMechanisticModel with a fixed subset, optional renaming of parameters/outputs. Non-trivial: (>=2 states '
     'whose model order differs from alphabetical order, or an intermediate output) with pairwise distinct parameter '
     'values, or a library model with sensitivities. Distinct = structural projection (topology, outputs, flags).')
+RULE += (' ' + 'Added: a second fix_parameters call on the reduced model that releases and fixes parameters in ONE call (also with an unchanged number of free parameters) with sensitivities on; PKPD flavour with a (direct / indirect) route of administration set after display names were assigned; a copy taken after the model was simulated.')
 ASSUMPTIONS = [
     'myokit.Simulation is replaced in the harness process by the reference integrator vf/simshim.py (CVODES is absent); '
     'it honours the documented contract of myokit.Simulation for the calls chi makes. It is itself cross-checked here: '
